@@ -7,7 +7,8 @@ RULE = ("micro APIs over a grid: (response-type form) x (metadata-type form) wit
         "{same file | other file imported by the service's file | other file NOT imported, listed before or after the service's file}, "
         "google.protobuf.Empty (imported by the service's file or only by another file), nested (qualified, package-relative, and "
         "package-relative while a top-level package of the same name exists, package-relative with the enclosing message in "
-        "another file, imported or not), a type in a proto sub-package of the API (its file imported / not imported by the service's file), "
+        "another file, imported or not), a dependency file (struct.proto, another package) imported only by a LATER API file, a file imported transitively, three "
+        "request orders of the API files (types before / between / after the service's file), a type in a proto sub-package of the API (its file imported / not imported by the service's file), "
         "a type alone in a file of its own that nobody imports and no other method uses, flattened request fields named like the api_core modules (operation, operation_async), "
         "a second long-running rpc sharing the response type with another metadata type, "
         "the asyncio REST transport (rest_async_io_enabled; packages v2 / v1beta1; with and without Operations http rules), "
@@ -42,6 +43,10 @@ GET_OP = "/google.longrunning.Operations/GetOperation"
 
 VALID = ["rel_same", "fq_same", "rel_imported", "fq_imported", "rel_notimported", "fq_notimported", "empty", "empty_elsewhere",
          "fq_nested", "fq_otherpkg", "rel_nested", "rel_nested_imported", "rel_nested_notimported"]
+# where the defining file sits relative to the service's file in the request (protoc lists a file after everything it imports,
+# in command-line order): a DEPENDENCY file imported only by a later API file comes after the service's file; a file reached
+# through an import of an import comes before it
+VALID += ["struct_elsewhere", "struct_transitive", "rel_transitive", "fq_transitive"]
 VALID += ["rel_alone", "fq_alone"]   # the type sits alone in a file of its own that nobody imports and no other method touches
 # the type lives in a proto SUB-package of the API (<pkg>.common), in a file the service's file imports / does not import;
 # named fully qualified, or relative to the rpc's package (common.X, which the package-relative fallback resolves)
@@ -66,6 +71,8 @@ def annotation(kind, pkg, S):
         "fq_subpkg_imported": f"{pkg}.common.SubImp{S}", "fq_subpkg_notimported": f"{pkg}.common.SubOther{S}",
         "rel_subpkg_notimported": f"common.SubOther{S}",
         "empty": "google.protobuf.Empty", "empty_elsewhere": "google.protobuf.Empty",
+        "struct_elsewhere": "google.protobuf.Struct", "struct_transitive": "google.protobuf.Struct",
+        "rel_transitive": f"Deep{S}", "fq_transitive": f"{pkg}.Deep{S}",
         "fq_nested": f"{pkg}.Outer.Inner{S}", "rel_nested": f"Outer.Inner{S}", "rel_nested_shadowed": f"Outer.Inner{S}",
         # nested, package-relative, the enclosing message in ANOTHER file than the service (imported / not imported)
         "rel_nested_imported": f"ImpOuter.Inner{S}", "rel_nested_notimported": f"OtherOuter.Inner{S}",
@@ -105,6 +112,26 @@ def build_api(cell):
     if "empty_elsewhere" in kinds and "empty" not in kinds:
         types.dep("google/protobuf/empty.proto")
         types.message("Holder").field("e", 1, ".google.protobuf.Empty")
+    if "struct_elsewhere" in kinds and "struct_transitive" not in kinds:
+        # struct.proto is imported by types.proto only (operations.proto does not reach it): with the service's file listed
+        # first it comes AFTER the service's file in the request
+        types.dep("google/protobuf/struct.proto")
+        types.message("StructHolder").field("s", 1, ".google.protobuf.Struct")
+    if "struct_transitive" in kinds:
+        more.dep("google/protobuf/struct.proto")
+        more.message("StructCarrier").field("s", 1, ".google.protobuf.Struct")
+    deep = None
+    if kinds & {"rel_transitive", "fq_transitive"}:
+        # jobs.proto imports more.proto, more.proto imports deep.proto
+        deep = File(f"{d}/deep.proto", pkg)
+        deep.message("DeepResp").field("text", 1, "string").field("n", 2, "int32")
+        deep.message("DeepMeta").field("pct", 1, "int32").field("stage", 2, "string")
+        more.dep(deep.proto.name)
+        more.message("DeepCarrier").field("d", 1, f".{pkg}.DeepResp")
+    if "fq_otherpkg" in kinds:
+        # the other package's file is imported by types.proto only
+        types.dep(shared.proto.name)
+        types.message("SharedHolder").field("s", 1, f".{SHARED_PKG}.SharedResp")
     rq = svc.message("StartRequest")
     rq.field("name", 1, "string")
     flat = FLAT.get(cell.get("flat"), [])
@@ -123,8 +150,11 @@ def build_api(cell):
               lro=(annotation(cell["resp"], pkg, "Resp"), annotation(cell["twin_meta"], pkg, "Meta")))
     if cell.get("raw_sibling"):
         s.rpc("Kick", rq.fqn, OPERATION, http=("post", "/v1/{name=jobs/*}:kick"), body="*")
-    files = [types, more, svc] if cell["order"] == "types-first" else [more, svc, types]
+    files = {"types-first": [types, more, svc], "types-middle": [more, types, svc]}.get(cell["order"], [more, svc, types])
     to_gen = [f.proto.name for f in (svc, more, types)]
+    if deep is not None:
+        files = [deep] + files
+        to_gen.append(deep.proto.name)
     for S, fname in (("Resp", "operation_result"), ("Meta", "operation_metadata")):
         slot = cell["resp"] if S == "Resp" else cell["meta"]
         if cell["annotated"] and slot in ("rel_alone", "fq_alone"):
@@ -150,7 +180,7 @@ def build_api(cell):
             files = files + [subf] if cell["order"] == "svc-first" else [subf] + files
         to_gen.append(subf.proto.name)
     if "fq_otherpkg" in kinds:
-        files = [shared] + files
+        files = files + [shared]          # placed by the topological sort: right before the first file that imports it
     if "rel_nested_shadowed" in kinds:
         # a top-level package named like the outer message: the dotted name also reads as a fully-qualified one
         shadow = File("Outer/outer.proto", "Outer")
@@ -679,14 +709,14 @@ def grid(ctx, n):
             r = env.rng("C08-grid", i)
             i += 1
             c = {"pkg_index": r.randrange(len(PACKAGES)), "resp": "rel_same", "meta": "fq_same", "annotated": True,
-                 "order": r.choice(["types-first", "svc-first"])}
+                 "order": r.choice(["types-first", "svc-first", "types-middle"])}
             c[slot] = k
             cells.append(c)
     while len(cells) < n:
         r = env.rng("C08-grid", i)
         i += 1
         cells.append({"pkg_index": r.randrange(len(PACKAGES)), "resp": r.choice(ALL_KINDS), "meta": r.choice(ALL_KINDS),
-                      "annotated": r.random() < 0.9, "order": r.choice(["types-first", "svc-first"]),
+                      "annotated": r.random() < 0.9, "order": r.choice(["types-first", "svc-first", "types-middle"]),
                       "raw_sibling": r.random() < 0.3, "types_name": r.choice(["types", "types", "operation", "operation_async"])})
     seen, out = set(), []
     for c in cells:
@@ -1124,7 +1154,7 @@ def e2e_cells(ctx, n):
         {"pkg_index": 0, "resp": "missing", "meta": "rel_same", "annotated": True, "order": "types-first"},
         {"pkg_index": 1, "resp": "fq_nested", "meta": "empty_elsewhere", "annotated": True, "order": "svc-first"},
         {"pkg_index": 2, "resp": "fq_notimported", "meta": "rel_notimported", "annotated": True, "order": "svc-first", "raw_sibling": True},
-        {"pkg_index": 1, "resp": "fq_otherpkg", "meta": "fq_imported", "annotated": True, "order": "types-first", "ops_http": True},
+        {"pkg_index": 1, "resp": "fq_otherpkg", "meta": "fq_transitive", "annotated": True, "order": "svc-first", "ops_http": True},
         {"pkg_index": 2, "resp": "unknown_rel", "meta": "rel_same", "annotated": True, "order": "types-first"},
         {"pkg_index": 0, "resp": "rel_notimported", "meta": "fq_notimported", "annotated": True, "order": "svc-first", "types_name": "operation"},
         {"pkg_index": 2, "resp": "rel_notimported", "meta": "rel_same", "annotated": True, "order": "svc-first", "flat": "operation"},
@@ -1147,7 +1177,7 @@ def e2e_cells(ctx, n):
         i += 1
         pool = VALID * 3 + MISSING + UNKNOWN
         c = {"pkg_index": r.randrange(len(PACKAGES)), "resp": r.choice(pool), "meta": r.choice(pool),
-             "annotated": r.random() < 0.88, "order": r.choice(["types-first", "svc-first"]), "raw_sibling": r.random() < 0.25,
+             "annotated": r.random() < 0.88, "order": r.choice(["types-first", "svc-first", "types-middle"]), "raw_sibling": r.random() < 0.25,
              "types_name": r.choice(["types", "types", "operation", "operation_async"]), "ops_http": r.choice([False, False, True, "multi"])}
         if r.random() < 0.3:
             c["flat"] = r.choice(["operation", "operation_async", "both"])
